@@ -468,6 +468,18 @@ ssize_t _GD_SampIndWrite(struct gd_raw_file_ *restrict file,
   const size_t size = sizeof(int64_t) + dlen;
   dtrace("%p, %p, 0x%03x, %" PRIuSIZE, file, ptr, data_type, nelem);
 
+  /* After a sequential read or write that ended on a record boundary the I/O
+   * pointer sits just past the current record: load or create the record which
+   * contains it before writing, exactly as an explicit seek would. */
+  if (f->p > f->s && f->p > 0) {
+    const int64_t here = f->p;
+    file->pos = -1;
+    if (_GD_SampIndSeek(file, here, data_type, GD_FILE_WRITE) < 0) {
+      dreturn("%i", -1);
+      return -1;
+    }
+  }
+
   if ((nrec = _GD_GetNRec(f, size)) < 0) {
     dreturn("%i", -1);
     return -1;
@@ -679,7 +691,9 @@ ssize_t _GD_SampIndWrite(struct gd_raw_file_ *restrict file,
   else
     f->bof = 1;
 
-  f->p = f->s = FIXSEX(f->swap, f->d[0]);
+  /* the I/O pointer is left just past the last sample written */
+  f->s = FIXSEX(f->swap, f->d[0]);
+  f->p = f->s + 1;
   f->r = fr + rin - 1;
   f->have_l = 0;
 
